@@ -145,6 +145,13 @@ def sweep(tier: str) -> Sweep:
                 parts.append(r.choice(alld if r.random() < 0.5 else ds + ["%%", "%%", "%"]))
                 parts.append(r.choice(lits + ["", ""]))
             judge(sw, c, cls, value, "".join(parts), roundtrip=False)
+        # the unpadded spelling `%-x` of a directive that has none is an unsupported directive like any other: it is
+        # reported by both sides, never read as `%x`
+        table = cls.regex()
+        for d in [k for k in table if len(k) == 2 and ("%-" + k[1]) not in table]:
+            form = "%-" + d[1]
+            for fmt in (form, ds[0] + lits[0] + form, form + lits[0] + ds[0], "%%" + form, form + form, d + form):
+                judge(sw, c, cls, value, fmt)
         # a directive repeated any number of times
         for d in ds:
             for times in (2, 3, 5, 8):
